@@ -1,26 +1,76 @@
-"""Property -> what is proved / bounded / assumed (mirrors DESIGN §5 and MANIFEST.json)."""
+"""Property -> what is proved (pyvc) / bounded (rtc) / assumed.  Mirrors DESIGN §5 and MANIFEST.json."""
 
 K = "esp_kconfiglib.core"
 EVAL_SIDECARS = ["contracts.kschema", "contracts.c_eval"]
+RENDER_SIDECARS = EVAL_SIDECARS + ["contracts.c_render"]
+MUT_SIDECARS = EVAL_SIDECARS + ["contracts.c_mut"]
 
 
 class Prop:
     def __init__(self, sidecars=(), prove=(), bounded=(), level="proof", explanation="", assumptions=()):
         self.sidecars = list(sidecars)
         self.prove = list(prove)
-        self.bounded = list(bounded)
+        self.bounded = list(bounded)  # names of rtc driver modules
         self.level = level
         self.explanation = explanation
         self.assumptions = list(assumptions)
 
 
+STR_CASES = ["*", "bool_unknown", "string",
+             "int_forced", "int_user", "int_dflt_range", "int_dflt_norange",
+             "hex_forced", "hex_user", "hex_dflt_range", "hex_dflt_norange",
+             "float_forced", "float_user", "float_dflt_range", "float_dflt_norange"]
+NUM_CASES = [c for c in STR_CASES if c.split("_")[0] in ("int", "hex", "float")]
+STR_VALUE = [f"{K}:Symbol.str_value#{c}" for c in STR_CASES]
+STR_VALUE_NUM = [f"{K}:Symbol.str_value#{c}" for c in ["*"] + NUM_CASES]
+
 EVALUATORS = [f"{K}:expr_value", f"{K}:_visibility", f"{K}:Symbol.visibility", f"{K}:Choice.visibility",
               f"{K}:Symbol.bool_value", f"{K}:Choice.bool_value", f"{K}:Choice.str_value"]
 CHOICE = [f"{K}:Choice._selection_from_defaults", f"{K}:Choice._selection", f"{K}:Choice.selection"]
+RENDER = [f"{K}:Symbol.has_active_default_value", f"{K}:_escape", f"{K}:Symbol.config_string",
+          f"{K}:Kconfig._header_string"]
+MUTATORS = [f"{K}:Symbol._rec_invalidate_if_has_prompt", f"{K}:Symbol.value_is_valid", f"{K}:Symbol.set_value",
+            f"{K}:Symbol.unset_value", f"{K}:Choice.set_value", f"{K}:Choice.unset_value", f"{K}:_restore_default"]
 
 PROPS = {
-    "C01": Prop(EVAL_SIDECARS, EVALUATORS, level="proof",
-                explanation="every evaluator is proved equal to the spec function transcribed from the statement"),
-    "C05": Prop(EVAL_SIDECARS, CHOICE + [f"{K}:Choice.bool_value", f"{K}:Symbol.bool_value"], level="proof",
+    "C01": Prop(EVAL_SIDECARS, EVALUATORS + STR_VALUE, ["drv_eval"], level="proof",
+                explanation="every evaluator (expr_value, _visibility, bool_value, str_value for all five types) is proved "
+                            "equal to the spec function transcribed from the statement; the propagation of inherited "
+                            "dependencies into prompt conditions (finalisation) is covered by the bounded stand-in"),
+    "C02": Prop(RENDER_SIDECARS, RENDER[:3], ["drv_loadsave"], level="other",
+                explanation="line format, quoting map and marker predicate proved; write∘load fix-point bounded"),
+    "C03": Prop(MUT_SIDECARS, MUTATORS, ["drv_eval"], level="other",
+                explanation="every mutator is proved to store a well-formed user value and to invalidate the changed item "
+                            "before returning, evaluators are proved to write nothing but caches (frame obligations); "
+                            "edge completeness of _build_dep and the closure of _rec_invalidate are bounded"),
+    "C04": Prop([], [], ["drv_parsers"], level="other",
+                explanation="parser equivalence is not decidable by a contract within reach; bounded differential contract on "
+                            "Kconfig.__init__ for the two parser versions"),
+    "C05": Prop(MUT_SIDECARS, CHOICE + [f"{K}:Choice.bool_value", f"{K}:Symbol.bool_value", f"{K}:Symbol.set_value"],
+                ["drv_eval"], level="proof",
                 explanation="selection rule and member values proved against the statement's three-step rule"),
+    "C06": Prop(RENDER_SIDECARS + ["contracts.c_mut"],
+                STR_VALUE_NUM + [f"{K}:Symbol.value_is_valid", f"{K}:Symbol.set_value", f"{K}:Kconfig._header_string"],
+                ["drv_eval"], level="proof",
+                explanation="numeric branches of str_value proved well-formed / clamped against the spec; accepted user values "
+                            "proved well-formed at the store; generators bounded"),
+    "C07": Prop(RENDER_SIDECARS, [f"{K}:Symbol.config_string", f"{K}:Kconfig._header_string", f"{K}:_escape"],
+                ["drv_outputs"], level="other",
+                explanation="sdkconfig and header entries proved equal to one spec of (written?, type, value); CMake / JSON / "
+                            "aliases bounded"),
+    "C08": Prop(RENDER_SIDECARS, [f"{K}:Symbol.has_active_default_value"], ["drv_loadsave"], level="other",
+                explanation="marker predicate proved; load-side clauses bounded"),
+    "C09": Prop([], [], ["drv_eval"], level="other", explanation="loop rejection and exception-freedom bounded"),
+    "C10": Prop([], [], ["drv_loadsave"], level="other", explanation="reconstruction bounded"),
+    "C11": Prop([], [], ["drv_loadsave"], level="other", explanation="rename resolution bounded"),
+    "C12": Prop([], [], ["drv_outputs"], level="other", explanation="touch decision, idempotence and crash clause bounded"),
+    "C13": Prop([], [], ["drv_outputs"], level="other", explanation="write-only-on-change and backup crash clause bounded"),
+    "C14": Prop([], [], ["drv_server"], level="other", explanation="client-sync invariant bounded"),
+    "C15": Prop([], [], ["drv_server"], level="other", explanation="one reply per line / survival bounded"),
+    "C16": Prop(MUT_SIDECARS, [f"{K}:Symbol.set_value"], ["drv_menuconfig"], level="other",
+                explanation="stored user values proved canonical (what is written is what a reload reads); needs_save bounded"),
+    "C17": Prop([], [], ["drv_menuconfig"], level="other", explanation="state invariant bounded"),
+    "C18": Prop([], [], ["drv_tools"], level="other", explanation="bounded"),
+    "C19": Prop([], [], ["drv_tools"], level="other", explanation="bounded"),
+    "C20": Prop([], [], ["drv_tools"], level="other", explanation="bounded"),
 }
